@@ -24,7 +24,7 @@ ASSUMPTIONS = [
 ]
 
 RULE_C01 = ("layouts = Type 4A/4B x FSCI x mapping version 1.0/2.0/3.0 (04h and 06h control TLV) x MLe 15..FFFFh x MLc 1..FFFFh x "
-            "max file size 5..8K (up to 64K+ with the 06h TLV) x device frame limits; lengths 0,1,253..257, MLc and MLe "
+            "max file size 5..8K (up to 64K+ with the 06h TLV; the capacity of a file above 8000h is judged against the 15 bit offset limit) x device frame limits; lengths 0,1,253..257, MLc and MLe "
             "boundaries, capacity-1, capacity, capacity+1, random; every length 0..capacity+1 for files up to 40 bytes; "
             "a case is distinct by (layout, length) and non-trivial when the fresh-activation read back was compared")
 RULE_C02 = ("(layout, old message, new message) x every cut k = 0..n after the k-th applied UPDATE BINARY; layouts put the "
@@ -47,15 +47,24 @@ RULE_C08 = ("activation variants (ATS: every subset of TA/TB/TC x 0..15 historic
             "SENSB_RES 1..14 bytes incl. the 13-byte extended ATQB with random SFGI, RFU values, ATTRIB answers), CC mutations (CCLEN, version, MLe/MLc, TLV tag/length, "
             "file id, sizes, truncated CC), NDEF file mutations (NLEN beyond the file, short file), status word errors at "
             "each APDU step, card gone from frame j for every j, arbitrary APDU responses and arbitrary blocks at each "
-            "position, random files; distinct by the whole descriptor; non-trivial when activation was attempted and every "
-            "accessor was evaluated")
+            "position, random files; files at the 15 bit offset limit of READ BINARY: declared maximum file size 7FFFh, 8000h, "
+            "8001h, 8002h, 8004h, 8100h, FFFEh, FFFFh, 10008h (mapping 1.0/2.0/3.0, 04h and 06h TLV) x NLEN 7FFCh..8002h, "
+            "declared capacity-1..+1, declared size-2..+1 x MLe 254, 255, 127, 129, 59, 256, 1000 x card (READ BINARY with P1 "
+            "bit 8: ISO/IEC 7816-4 short EF identifier + P2 offset / refused 6A82 / refused 6B00 / 16 bit offset; short reads "
+            "by a per-command limit or a page size; EF physically 0/16/300 bytes larger than declared) with a data area whose "
+            "bytes at offset 8000h differ from the NLEN field, the CC and the other EFs, a sub-class of which puts a chunk "
+            "boundary of the read exactly on offset 8000h with NLEN between the addressable (min(size, 8000h) - length "
+            "field) and the declared capacity; the returned octets must be the bytes behind NLEN of the selected file, the "
+            "capacity at most the addressable one, and an NDEF object is never assembled with a READ BINARY whose P1 has bit 8 "
+            "set; distinct by the whole descriptor; non-trivial when activation was attempted and every accessor was evaluated")
 RULE_C16 = ("operation (ndef read, has_changed, one-command and chunked write, is_present, format(wipe), dump, send_apdu, "
             "transceive) x every frame position of its fault free run x {Timeout, Transmission, Protocol} x burst 1..4 x "
             "{command lost, response lost} x (Type 4A/4B, FSCI, FWI -> retry budget 0/1/3/5, WTX on UPDATE BINARY); at "
             "every cell an operation that returns normally returns the fault free result or its documented failure value "
             "(None / False / has_changed True / shorter dump) and, with the fault free result, leaves the fault free memory")
 REQUIRED_C01 = ["t4t_roundtrips", "t4t_ref_reads", "t4t_oversize_rejected", "t4t_len_capacity", "t4t_len_zero",
-                "t4t_c01_mlc>255_writes_beyond_short_apdu_within_mlc", "t4t_c01_mle>256_reads_beyond_short_apdu"]
+                "t4t_c01_mlc>255_writes_beyond_short_apdu_within_mlc", "t4t_c01_mle>256_reads_beyond_short_apdu",
+                "t4t_c01_fsize>8000h_capacity_judged"]
 REQUIRED_C02 = ["t4t_cuts", "t4t_cut_outcome_old", "t4t_cut_outcome_new", "t4t_cut_outcome_empty",
                 "t4t_c02_mlc>255_cuts", "t4t_c02_mlc>255_within_mlc_midcuts", "t4t_c02_mlc>255_within_mlc_midcuts_nlen2",
                 "t4t_c02_mlc>255_within_mlc_midcuts_nlen4", "t4t_c02_mlc>255_within_mlc_midcuts_old_shorter",
@@ -70,7 +79,13 @@ REQUIRED_C03 = ["t4t_c03_ops", "t4t_c03_updates_inspected", "t4t_c03_bytes_diffe
                 "t4t_c03_write_up_to_offset_limit", "t4t_c03_beyond_offset_limit_refused", "t4t_c03_oversize_refused",
                 "t4t_c03_mlc>255_writes_beyond_short_apdu"]
 REQUIRED_C08 = ["t4t_c08_cases", "t4t_c08_outcome_ndef", "t4t_c08_outcome_none", "t4t_c08_ats_variants",
-                "t4t_c08_sensb_variants", "t4t_c08_sensb_extended_atqb", "t4t_c08_stop_positions"]
+                "t4t_c08_sensb_variants", "t4t_c08_sensb_extended_atqb", "t4t_c08_stop_positions",
+                "t4t_c08_big_cases", "t4t_c08_big_nlen_within_2_of_limit_judged", "t4t_c08_big_largest_message_read_and_compared",
+                "t4t_c08_big_nlen_above_limit_none", "t4t_c08_big_declared>8000h_capacity_judged",
+                "t4t_c08_big_read_ends_at_offset_7FFFh", "t4t_c08_big_short_reads_served",
+                "t4t_c08_big_chunk_boundary_at_8000h_nlen_beyond_limit_judged_sfi_card",
+                "t4t_c08_big_chunk_boundary_at_8000h_nlen_beyond_limit_judged_offset_card",
+                "t4t_c08_big_chunk_boundary_at_8000h_nlen_beyond_limit_judged_6B00_card"]
 REQUIRED_C16 = ["t4t_c16_cells", "t4t_c16_within_budget_same", "t4t_c16_beyond_budget_reported", "t4t_c16_dup_checked",
                 "t4t_c16_normal_returns_judged"]
 
@@ -201,6 +216,12 @@ def c01_eval(R, case, count=True):
             R.count("t4t_capacity_below_ref")
     if cap > ref_cap:
         bad("capacity>layout", "capacity %d but the file holds %d message bytes" % (cap, ref_cap))
+    elif cap > c03_area(lay):
+        # UPDATE / READ BINARY offsets end at 7FFFh: what lies behind cannot be written or read back
+        bad("capacity>addressable", "capacity %d but only %d message bytes lie below file offset 8000h (file size %d)"
+            % (cap, c03_area(lay), lay["fsize"]))
+    if count and lay["fsize"] > 0x8000:
+        R.count("t4t_c01_fsize>8000h_capacity_judged")
     if nd.octets != prev:
         bad("first-read-mismatch/%s" % pc, "octets of the previous message differ (%d vs %d bytes)" % (len(nd.octets), len(prev)))
     if not nd.is_writeable:
@@ -738,14 +759,38 @@ def replay_c03(case, R):
 # =================================================================================================================
 def card_from_raw(d):
     from vf.sim import t4t
-    files = {int(k): bytes(v) for k, v in d["files"].items()}
+    files = {int(k): raw_file(v) for k, v in d["files"].items()}
     acc = {int(k): tuple(v) for k, v in (d.get("access") or {}).items()}
     attrib = d.get("attrib", b"\x00")
     card = t4t.T4TCard(kind=d["kind"], fsci=d.get("fsci", 8), fwi=d.get("fwi", 4), ats=d.get("ats"), sensb_res=d.get("sensb"),
                        attrib_res=None if attrib == "mute" else attrib, apps=tuple(d.get("apps", ["v2"])), files=files,
                        access=acc, mle=d.get("mle", 255), mlc=d.get("mlc", 255), eof=d.get("eof", "6282"),
-                       le_less_read=d.get("le_less", "6700"), select_fci=d.get("fci"), odo=d.get("odo", False))
+                       le_less_read=d.get("le_less", "6700"), select_fci=d.get("fci"), odo=d.get("odo", False),
+                       p1b8=d.get("p1b8", "6A82"), sfi=d.get("sfi"), read_cap=d.get("read_cap"), read_page=d.get("read_page"))
     return card
+
+
+OFFSET_LIMIT = 0x8000          # READ / UPDATE BINARY (B0 / D6) express offsets 0000h..7FFFh in P1-P2 (ISO/IEC 7816-4)
+
+
+def raw_file(v):
+    """file content of a raw card descriptor: the bytes themselves, or the compact form of a large EF
+    {"head": first bytes, "size": physical size, "seed": n}: head + a recognisable stream; the 8 bytes at file offset 8000h
+    are made different from the first 8 bytes of the file (the NLEN field, which a READ BINARY with P1 = 80h returns on a card
+    with short EF identifier addressing), from the CC file, and from the filler of the other EFs"""
+    if not isinstance(v, dict):
+        return bytes(v)
+    head = bytes(v["head"])
+    body = bytearray(head + stream(b"F%d" % v["seed"], max(0, v["size"] - len(head))))[:v["size"]]
+    avoid = bytes(v.get("avoid", b""))
+    for i in range(8):
+        j = OFFSET_LIMIT + i
+        if j < len(body):
+            x = body[j]
+            while x in (body[i], 0xDC, 0x00) or (i < len(avoid) and x == avoid[i]):
+                x = (x + 0x35) & 0xFF
+            body[j] = x
+    return bytes(body)
 
 
 def raw_valid(rng, msg_len=None):
@@ -830,6 +875,8 @@ def c08_eval(R, case, count=True):
 
     outcome = "none"
     dev = None
+    judged_cc = None
+    length = 0
     try:
         from vf.sim import tagdevice
         # the device is created inside activate(); the command counter is read back from the frontend afterwards
@@ -868,6 +915,12 @@ def c08_eval(R, case, count=True):
                                 % (length, n, cc["max_size"]))
                         if capacity > max(0, cc["max_size"] - n):
                             bad("capacity>data-area", "capacity %d, declared file size %d" % (capacity, cc["max_size"]))
+                        elif capacity > max(0, min(cc["max_size"], OFFSET_LIMIT) - n):
+                            # the data area a READ BINARY can address ends at file offset 7FFFh (RULE_C03: area)
+                            bad("capacity>addressable-data-area", "capacity %d with a %d byte length field: the data area would "
+                                "reach file offset %Xh, READ BINARY offsets end at 7FFFh (declared file size %d)"
+                                % (capacity, n, capacity + n - 1, cc["max_size"]))
+                        judged_cc = cc
                 stage = "has_changed"
                 nd.has_changed
                 nd3 = tag.ndef
@@ -890,6 +943,20 @@ def c08_eval(R, case, count=True):
     except Exception as e:        # noqa
         bad("escape/%s/%s" % (sstage(stage), tagsig(e)), "%s raised %r" % (stage, e))
         outcome = "raised"
+    # wire clause (every case, whatever the card answered): the reader addresses the file it selected by offset.  Bit 8 of P1
+    # turns bits 5..1 into a short EF identifier and P2 into the offset (ISO/IEC 7816-4), so what such a READ BINARY returns
+    # is not the byte at that 16 bit offset of the data area.  The property allows None after a refused command: a violation
+    # only when an NDEF object was returned (octets assembled with such a command), an observation otherwise
+    if card.p1b8_reads:
+        p1, off, sw = card.p1b8_reads[0]
+        if outcome == "ndef":
+            bad("read-binary-short-ef-addressing", "READ BINARY with P1 %02Xh: bit 8 set addresses an EF by short identifier, not "
+                "an offset of the NDEF file (card: %s, SW %04X); an NDEF object of %d octets was returned"
+                % (p1, d.get("p1b8", "6A82"), sw, length))
+        elif count:
+            R.count("t4t_c08_obs_read_binary_p1_bit8_sent_result_%s" % outcome.replace("-", "_"))
+    if count and case.get("big"):
+        c08_big_counters(R, case, card, outcome, judged_cc, sigs)
     if count:
         R.count("t4t_c08_cases")
         R.count("t4t_c08_outcome_" + outcome.replace("-", "_"))
@@ -1018,6 +1085,10 @@ def c08_cases(rng, tier, which, size=None):
                 d["mle"] = rng.choice([0xFFFF, 255, 15])          # what the card enforces differs from what the CC says
             yield base(d, "files_" + cls)
         return
+    if which == "big":
+        for c in c08_big_cases(rng, size or 120 * reps):
+            yield c
+        return
     if which == "responses":
         from vf.sim import tagdevice
         n = size or 110 * reps
@@ -1053,13 +1124,106 @@ def c08_cases(rng, tier, which, size=None):
                 yield base(d, "adv_block_from", block_from=[j, rng.choice(BLOCK_GARBAGE)])
         return
 
+# ---- class "files at the 15 bit offset limit" ------------------------------------------------------------------------
+BIG_SIZES = (0x7FFF, 0x8000, 0x8001, 0x8002, 0x8004, 0x8100, 0xFFFE, 0xFFFF, 0x10008)
+BIG_MLE = (254, 255, 127, 129, 59, 256, 1000)
+# NLEN: absolute values around 8000h, relative to the declared capacity (size - length field), relative to the declared size
+BIG_NLEN = (tuple(("lim", x) for x in range(-4, 3)) + tuple(("cap", x) for x in (-1, 0, 1)) + tuple(("fs", x) for x in (-2, -1, 0, 1)))
+# card: READ BINARY with P1 bit 8 set ("sfi" ISO/IEC 7816-4 short EF identifier + P2 offset, "6B00"/"6A82" refused, "offset" =
+# 16 bit offset), bytes per READ BINARY relative to min(MLe, 256) (short reads), page size no READ BINARY crosses (short
+# reads), physical bytes behind the declared maximum file size
+BIG_CARDS = (("sfi", None, None, 0), ("sfi", None, None, 300), ("sfi", -1, None, 0), ("sfi", None, 256, 16),
+             ("6B00", None, None, 300), ("6B00", None, 1024, 0), ("offset", None, None, 0), ("offset", None, None, 300),
+             ("6A82", None, None, 0), ("6A82", -1, None, 16))
+BIG_VT = ((0x20, 4), (0x20, 4), (0x10, 4), (0x30, 6), (0x30, 4))
+
+
+def c08_big_case(rng, size, mle, nopt, cardopt, vt=None):
+    ver, tlv = vt or rng.choice(BIG_VT)
+    if size > 0xFFFF:
+        ver, tlv = 0x30, 6
+    ns = 2 if tlv == 4 else 4
+    nlen = {"lim": OFFSET_LIMIT, "cap": size - ns, "fs": size}[nopt[0]] + nopt[1]
+    nlen = max(0, min(nlen, (1 << (8 * ns)) - 1))
+    p1b8, rc, page, extra = cardopt
+    fid = rng.choice([0xE104, 0x0001, 0xE105])
+    cc = ref.build_cc(ver, mle, rng.choice([255, 52, 0xFFFF]), fid, size, tlv=tlv)
+    d = {"kind": rng.choice("AB"), "fsci": 8, "fwi": rng.choice([4, 8, 11]), "apps": ["v1"] if ver == 0x10 else ["v2"],
+         "files": {str(ref.CC_FID): cc, str(fid + 1): b"\xDC" * 64,
+                   str(fid): {"head": nlen.to_bytes(ns, "big"), "size": size + extra, "seed": rng.randrange(1 << 20), "avoid": cc[:8]}},
+         "mle": mle, "mlc": 255, "eof": rng.choice(["6282", "9000", "6700", "6CXX"]), "le_less": "6700", "odo": ver == 0x30,
+         "p1b8": p1b8, "sfi": {"1": fid + 1, "2": ref.CC_FID}, "read_cap": None if rc is None else max(1, min(mle, 256) + rc),
+         "read_page": page}
+    return {"family": FAM, "prop": "c08", "cls": "big_files", "card": d,
+            "big": {"fid": fid, "size": size, "ns": ns, "nlen": nlen, "mle": mle, "p1b8": p1b8, "read_cap": d["read_cap"], "read_page": page,
+                    "extra": extra}}
+
+
+def c08_big_cases(rng, n):
+    """n cells of BIG_SIZES x BIG_NLEN x BIG_MLE x BIG_CARDS.  The first cells are drawn from the sub-class where a chunk boundary
+    of the read falls exactly on file offset 8000h (MLe divides 8000h - length field, or short reads that end there) while the
+    declared file reaches behind it and NLEN lies between the addressable and the declared capacity; the rest is a sample
+    of the whole product"""
+    beyond = [x for x in BIG_SIZES if x > OFFSET_LIMIT]
+    ncore = min(n, max(6, n // 6))
+    for k in range(ncore):
+        size = beyond[k % len(beyond)]
+        p1b8 = ("sfi", "sfi", "offset", "6B00", "sfi", "6A82")[(k // 2) % 6]
+        if k % 2 == 0 and size <= 0xFFFF:
+            # 2 byte NLEN: 7FFEh = 2 * 3 * 43 * 127 data bytes lie below offset 8000h
+            vt, mle, card = rng.choice(BIG_VT[:3] + BIG_VT[4:]), rng.choice([254, 127, 129]), (p1b8, None, None, rng.choice([0, 300]))
+        else:
+            vt, mle = rng.choice(BIG_VT) if size <= 0xFFFF else (0x30, 6), rng.choice([255, 256, 1000, 59])
+            card = (p1b8, None, rng.choice([256, 1024]), rng.choice([0, 16]))
+        yield c08_big_case(rng, size, mle, ("lim", -rng.randrange(2 if vt[1] == 4 else 4)), card, vt)
+    cells = [(a, b, c, e) for a in BIG_SIZES for b in BIG_MLE for c in BIG_NLEN for e in BIG_CARDS]
+    for size, mle, nopt, card in rng.sample(cells, n - ncore):
+        yield c08_big_case(rng, size, mle, nopt, card)
+
+
+def c08_big_counters(R, case, card, outcome, judged_cc, sigs):
+    b = case["big"]
+    ns, size, nlen = b["ns"], b["size"], b["nlen"]
+    limit = min(size, OFFSET_LIMIT) - ns          # largest message READ BINARY offsets reach, independent of the reader
+    fid = b["fid"]
+    R.count("t4t_c08_big_cases")
+    R.seen("t4t_c08_big_card", "%s/cap%s/page%s/extra%d" % (b["p1b8"], b["read_cap"], b["read_page"], b["extra"]))
+    R.seen("t4t_c08_big_declared_size", "%Xh" % size)
+    R.seen("t4t_c08_big_mle", b["mle"])
+    R.seen("t4t_c08_big_nlen_minus_limit", max(-5, min(5, nlen - limit)))
+    R.seen("t4t_c08_big_nlen_minus_declared_size", max(-5, min(5, nlen - size)))
+    evaluated = outcome in ("ndef", "tag-without-ndef")
+    if evaluated and abs(nlen - limit) <= 2:
+        R.count("t4t_c08_big_nlen_within_2_of_limit_judged")
+    if outcome == "ndef" and judged_cc is not None and not sigs:
+        if nlen == limit:
+            R.count("t4t_c08_big_largest_message_read_and_compared")
+        if size > OFFSET_LIMIT:
+            R.count("t4t_c08_big_declared>8000h_capacity_judged")
+    if outcome == "tag-without-ndef" and limit < nlen <= limit + 2:
+        R.count("t4t_c08_big_nlen_above_limit_none")
+    if any(f == fid and off < OFFSET_LIMIT and off + n == OFFSET_LIMIT for f, off, n in card.read_log):
+        R.count("t4t_c08_big_read_ends_at_offset_7FFFh")
+    if card.short_served:
+        R.count("t4t_c08_big_short_reads_served")
+    chunk = min(b["mle"], 256, b["read_cap"] or 256)
+    aligned = (OFFSET_LIMIT - ns) % chunk == 0 or bool(b["read_page"] and OFFSET_LIMIT % b["read_page"] == 0)
+    if evaluated and aligned and limit < nlen <= size - ns:
+        # (a reader that took the declared capacity would start a READ BINARY at offset 8000h here)
+        R.count("t4t_c08_big_chunk_boundary_at_8000h_nlen_beyond_limit_judged")
+        R.count("t4t_c08_big_chunk_boundary_at_8000h_nlen_beyond_limit_judged_%s_card" % b["p1b8"])
+
 
 def plan_c08(tier):
     if tier == "quick":
-        return [{"which": [["activation", None], ["files", 6000]]}, {"which": [["responses", 42]]}, {"which": [["responses", 42]]}]
+        # (the class added last runs behind an existing group: the number of shards and the random streams of the other groups
+        # and of the families planned behind this one stay what they were)
+        return [{"which": [["activation", None], ["files", 6000]]}, {"which": [["responses", 42], ["big", 240]]},
+                {"which": [["responses", 42]]}]
     return ([{"which": [["activation", None], ["files", 40000]], "timeout": 1500}] +
             [{"which": [["files", 60000]], "timeout": 1500} for _ in range(2)] +
-            [{"which": [["responses", 300]], "timeout": 1500} for _ in range(5)])
+            [{"which": [["responses", 300]], "timeout": 1500} for _ in range(4)] +
+            [{"which": [["responses", 300], ["big", 4000]], "timeout": 1500}])
 
 
 def run_c08(desc, R, rng):
